@@ -1060,7 +1060,7 @@ def run_body(res, rng, quick, seed):
     tie_trcards(res, rng, 500 if quick else 5000, 150 if quick else 1500)
     tie_matrix(res, rng, 300 if quick else 3000)
     pool = tie_small(res, rng, quick)
-    tie_surfaces(res, rng, 1800 if quick else 26000, pool)
+    tie_surfaces(res, rng, 2600 if quick else 26000, pool)
     tie_entries(res, rng, 300 if quick else 3000, pool)
     tie_trcl(res, rng, 400 if quick else 4000)
     tie_implicit(res, rng, 200 if quick else 2000)
